@@ -40,7 +40,7 @@ fn program(name: &'static str, progs: Vec<Vec<COp>>, two_subs: bool, hold: bool)
 pub fn units(thorough: bool) -> Vec<Unit> {
     use COp::*;
     let mut v = vec![];
-    let d = if thorough { 4 } else { 2 };
+    let d = if thorough { 5 } else { 2 };
     for cap in [1usize, 2] {
         let cfg = ExecCfg { caps: (cap, cap), ..Default::default() };
         for k in [cap, cap + 1] {
